@@ -83,6 +83,11 @@ impl<'a, 'b> SchemerContext<'a, 'b> {
     fn mapping_conjunction_to_schema(&mut self, clause: &Conjunction) -> anyhow::Result<Runtype> {
         let mut acc = vec![];
 
+        if clause.positive.is_empty() {
+            // only negated atoms: "an object, but none of these" - without the base type the
+            // negations would also admit every value that is not an object at all
+            acc.push(Runtype::any_object());
+        }
         for atom in &clause.positive {
             let mt = match atom {
                 Atom::Mapping(a) => self.ctx.0.get_mapping_atomic(*a).clone(),
@@ -131,6 +136,12 @@ impl<'a, 'b> SchemerContext<'a, 'b> {
     fn map_conjunction_to_schema(&mut self, clause: &Conjunction) -> anyhow::Result<Runtype> {
         let mut acc = vec![];
 
+        if clause.positive.is_empty() {
+            acc.push(Runtype::map(
+                Box::new(Runtype::any()),
+                Box::new(Runtype::any()),
+            ));
+        }
         for atom in &clause.positive {
             let mt = match atom {
                 Atom::Map(a) => self.ctx.0.get_map_atomic(*a).clone(),
@@ -190,6 +201,9 @@ impl<'a, 'b> SchemerContext<'a, 'b> {
     fn list_conjunction_to_schema(&mut self, clause: &Conjunction) -> anyhow::Result<Runtype> {
         let mut acc = vec![];
 
+        if clause.positive.is_empty() {
+            acc.push(Runtype::any_array_like());
+        }
         for atom in &clause.positive {
             let lt = match atom {
                 Atom::List(a) => self.ctx.0.get_list_atomic(*a).clone(),
@@ -233,6 +247,9 @@ impl<'a, 'b> SchemerContext<'a, 'b> {
     fn set_conjunction_to_schema(&mut self, clause: &Conjunction) -> anyhow::Result<Runtype> {
         let mut acc = vec![];
 
+        if clause.positive.is_empty() {
+            acc.push(Runtype::set(Box::new(Runtype::any())));
+        }
         for atom in &clause.positive {
             let lt = match atom {
                 Atom::Set(a) => self.ctx.0.get_set_atomic(*a).clone(),
